@@ -11,6 +11,16 @@ BASE_NOTE = ("Trusted base: CPython's ast parser, the engines under /verif/sa (p
              "conditions of the property - and not the value-level behaviour; see DESIGN.md for what is not decided.")
 
 CLAIMS = {
+    "C13": dict(
+        text=("Static rules on the cache-validity and publication discipline that makes history and interleaving irrelevant: (R13.1) year-start cache: masks/shifts consistent, over the abstractly "
+              "evaluated year span of all 18 concrete calculators (index, validator) determines the year and the invalid marker is unreachable, and every cache user indexes, validates and fills the "
+              "slot with one and the same key and reads the shared slot exactly once; (R13.2) zone-interval cache: the node is trusted only after an exact comparison of the unmasked period, the shared "
+              "slot is read once, the node chain is built by a loop whose bound is exactly one period (2^shift days, linear form) past the period start, nodes are immutable, the cached zone delegates to "
+              "its own map; (R13.3) _Cache: lockset - every access to dictionary/key list under the lock, no re-entrancy; (R13.4) lazy singletons follow double-checked locking and the identity-bearing "
+              "registries (zone map, calendar registry) publish under a lock or atomically with the registered instance returned. Schedules and histories themselves are not explored."),
+        design_ref="DESIGN.md section 3, C13",
+        technique="static analysis: lockset / publication-idiom rules, cache-key agreement and coverage over abstractly evaluated calculator ranges",
+    ),
     "C18": dict(
         text=("Static rules, exhaustive over an abstract order/line domain: (R18.1) DateInterval `date in`, `interval in`, `&` and `|` are abstractly evaluated by the interpreter on every weak "
               "ordering of the end points (and the probe), twice - with the packed date order equal to and reversed against the calendar order - and compared with set semantics; for the union the "
